@@ -244,6 +244,7 @@ static bool node_cas(struct deque *d, struct tptr *f, struct tptr *expected, str
   *expected = *f;
   return false;
 }
+#ifndef U_SEQ
 /* pool_.allocate() + placement new: a node that is in nobody's hands (freelist correctness: trusted, A-OWN) */
 static struct node *alloc_node(struct deque *d, struct node *lptr, struct node *rptr, T v, int ltag, int rtag)
 {
@@ -257,6 +258,25 @@ static struct node *alloc_node(struct deque *d, struct node *lptr, struct node *
   if (g_allocs < 2) g_allocs++;
   return n;
 }
+#else
+/* bounded sequential stand-in: array-backed LIFO freelist over the four cells (caching_freelist: deallocate pushes,
+ * allocate pops -- a popped node is really reused by the next push) */
+static struct node *g_free[NPOOL];
+static int g_nfree;
+static struct node *alloc_node(struct deque *d, struct node *lptr, struct node *rptr, T v, int ltag, int rtag)
+{
+  VX_ASSERT(g_nfree > 0 && g_nfree <= NPOOL, "sequential stand-in: at most NPOOL live nodes");
+  struct node *n = g_free[g_nfree - 1];
+  g_nfree--;
+  VX_ASSERT(g_own == NULL, "one allocation per push");
+  n->left = mk_tptr(lptr, ltag);
+  n->right = mk_tptr(rptr, rtag);
+  n->data = v;
+  g_own = n; g_own_data = v; g_own_ll = lptr; g_own_lr = rptr;
+  if (g_allocs < 2) g_allocs++;
+  return n;
+}
+#endif
 static void node_destroy(struct node *n) { (void) n; }
 /* pool_.deallocate(n): the node goes back to the freelist and may be handed to another thread at once */
 static void pool_deallocate(struct deque *d, struct node *n)
@@ -265,7 +285,12 @@ static void pool_deallocate(struct deque *d, struct node *n)
   VX_ASSERT(g_retired == 0, "a node is retired at most once");
   if (g_retired < 2) g_retired++;
   g_retired_node = n;
-  if (!g_quiescent) n->data = nondet_int();
+  n->data = nondet_int();   /* reuse: whatever is read from the node from now on is not the popped payload */
+#ifdef U_SEQ
+  VX_ASSERT(g_nfree >= 0 && g_nfree < NPOOL, "sequential stand-in: freelist overflow (double free)");
+  g_free[g_nfree] = n;
+  g_nfree++;
+#endif
 }
 
 /* ---- lifted functions ---- */
@@ -426,5 +451,92 @@ void harness(void)
 #ifdef U_EMPTY
   if (empty(&g_q)) VX_REACH("is_empty"); else VX_REACH("not_empty");
 #endif
+}
+#endif
+
+#ifdef U_SEQ
+/* BOUNDED sequential stand-in (never counted as proof): one thread, no interference; every sequence of NOPS = 4
+ * operations over push_left / push_right / pop_left / pop_right (shorter sequences are its prefixes: everything is
+ * asserted after each operation), followed by a drain from nondeterministically chosen ends.  Reference model: an array
+ * window model[lo, hi). */
+#define NOPS 4
+void harness(void)
+{
+  init_ghosts();
+  g_quiescent = true;
+  g_q.anchor_ = mk_pair(NULL, NULL, stable, 0);          /* deque_anchor(): pair(nullptr, nullptr, stable, 0) */
+  g_n0.left = mk_tptr(NULL, 0); g_n0.right = mk_tptr(NULL, 0); g_n0.data = 0;
+  g_n1 = g_n0; g_n2 = g_n0; g_n3 = g_n0;
+  g_free[0] = &g_n3; g_free[1] = &g_n2; g_free[2] = &g_n1; g_free[3] = &g_n0; g_nfree = NPOOL;
+  g_obs = g_q.anchor_;
+  T model[2 * NOPS + 1];
+  int lo = NOPS, hi = NOPS;
+  bool used_left = false, used_right = false;
+  for (int i = 0; i < NOPS; i++)
+  {
+    uint8_t op = nondet_u8();
+    T v = nondet_int(), out = 0;
+    bool ok;
+    lin = false; g_retired = 0; g_own = NULL; g_allocs = 0;
+    if (op == 0)
+    {
+      ok = push_left(&g_q, v);
+      VX_ASSERT(ok && lin, "push_left succeeds by one step");
+      lo--; model[lo] = v; used_left = true;
+    }
+    else if (op == 1)
+    {
+      ok = push_right(&g_q, v);
+      VX_ASSERT(ok && lin, "push_right succeeds by one step");
+      model[hi] = v; hi++; used_right = true;
+    }
+    else if (op == 2)
+    {
+      ok = pop_left(&g_q, &out);
+      VX_ASSERT(ok == (lo < hi), "pop_left on a non-empty quiescent deque succeeds, on an empty one it fails");
+      if (ok) { VX_ASSERT(out == model[lo], "pop_left returns the leftmost element (push_left;pop_left = LIFO, push_right;pop_left = FIFO): nothing invented"); lo++; }
+    }
+    else if (op == 3)
+    {
+      ok = pop_right(&g_q, &out);
+      VX_ASSERT(ok == (lo < hi), "pop_right on a non-empty quiescent deque succeeds, on an empty one it fails");
+      if (ok) { VX_ASSERT(out == model[hi - 1], "pop_right returns the rightmost element (push_right;pop_right = LIFO, push_left;pop_right = FIFO): nothing invented"); hi--; }
+    }
+    else
+      break;
+    VX_ASSERT(empty(&g_q) == (lo == hi), "empty() iff the model is empty");
+    VX_ASSERT(g_q.anchor_.ltag == stable, "a completed operation leaves the quiescent deque stable");
+    VX_ASSERT(g_nfree == NPOOL - (hi - lo), "exactly the nodes of the elements in the deque are allocated");
+  }
+  if (hi - lo == NOPS) VX_REACH("four_elements");
+  if (hi - lo == NOPS && used_left && used_right) VX_REACH("pushed_at_both_ends");
+  if (lo == hi && used_left) VX_REACH("emptied_by_pops");
+  /* drain */
+  for (int k = 0; k < NOPS; k++)
+  {
+    if (lo == hi) break;
+    T out = 0;
+    lin = false; g_retired = 0; g_own = NULL; g_allocs = 0;
+    if (nondet_bool())
+    {
+      VX_ASSERT(pop_left(&g_q, &out), "drain: pop_left on a non-empty quiescent deque succeeds");
+      VX_ASSERT(out == model[lo], "drain: leftmost element");
+      lo++;
+    }
+    else
+    {
+      VX_ASSERT(pop_right(&g_q, &out), "drain: pop_right on a non-empty quiescent deque succeeds");
+      VX_ASSERT(out == model[hi - 1], "drain: rightmost element");
+      hi--;
+    }
+  }
+  VX_ASSERT(lo == hi, "drained after at most NOPS pops");
+  VX_ASSERT(empty(&g_q) && g_nfree == NPOOL, "a drained deque is empty and every node is back in the freelist");
+  {
+    T out = 0;
+    lin = false; g_retired = 0;
+    VX_ASSERT(!pop_left(&g_q, &out) && !pop_right(&g_q, &out), "pops on the drained deque fail");
+  }
+  VX_REACH("drained");
 }
 #endif
